@@ -104,6 +104,14 @@ class CodemodExecutionContext:
             for change_set in changes
         ]
 
+    def rewritten_python_files(self) -> list[Path]:
+        """Python files changed so far in this run, as absolute paths"""
+        return [
+            self.directory / path
+            for path in dict.fromkeys(self.get_changed_files())
+            if str(path).endswith(".py")
+        ]
+
     def get_failures(self, codemod_name: str) -> list[Path]:
         return self._failures_by_codemod.get(codemod_name, [])
 
